@@ -23,6 +23,7 @@ import (
 func init() {
 	subcmds["c16-lit"] = c16Lit
 	subcmds["c16-num"] = c16Num
+	subcmds["c16-tnb"] = c16ToNumberBase
 	subcmds["c16-q"] = c16Quote
 	subcmds["c16-ts"] = c16ToString
 	subcmds["c16-date"] = c16Date
@@ -197,6 +198,9 @@ type c16In struct {
 		M    int64  `json:"m"`
 		E    int    `json:"e"`
 		Bits string `json:"bits"`
+		N    int64  `json:"n"`
+		B    int64  `json:"b"`
+		BStr bool   `json:"bstr"`
 	} `json:"cases"`
 	Bases []int `json:"bases"`
 }
@@ -255,6 +259,37 @@ func c16Num(args []string) int {
 			m["lex"] = c16LoadReturn(L, c16ToBytes(c.S))
 		}
 		return m
+	})
+	for i, r := range res {
+		r["id"] = inp.Cases[i].ID
+		w.write(r)
+	}
+	return 0
+}
+
+// c16ToNumberBase: tonumber(arg, base) with the first argument a string or a number and the base a
+// number or a numeric string.
+func c16ToNumberBase(args []string) int {
+	inp, w := c16IO(args)
+	defer w.close()
+	res := c16ParallelCases(len(inp.Cases), func(L *lua.LState, i int) map[string]interface{} {
+		c := inp.Cases[i]
+		var arg, base lua.LValue
+		if c.K == "tnn" {
+			arg = lua.LNumber(c.N)
+		} else {
+			arg = lua.LString(string(c16ToBytes(c.S)))
+		}
+		if c.BStr {
+			base = lua.LString(fmt.Sprint(c.B))
+		} else {
+			base = lua.LNumber(c.B)
+		}
+		r, err := c16Call(L, "r_tonb", 1, arg, base)
+		if err != nil {
+			return map[string]interface{}{"r": []interface{}{"err", err.Error()}}
+		}
+		return map[string]interface{}{"r": c16ValTok(r[0])}
 	})
 	for i, r := range res {
 		r["id"] = inp.Cases[i].ID
